@@ -24,6 +24,14 @@ func c03World(tp *Tape, env *Env) (*Plan, *Violation) {
 		NVars: [3]int{tp.Int(1, 3, "nnum"), tp.Int(0, 2, "nbool"), tp.Int(1, 2, "nstr")}, Probes: true, ExprDepth: 2,
 		InlinePct: 20, CondPct: 20, VarLines: true, IllTypedSets: tp.Int(0, 40, "illtyped"), NonASCII: tp.Bool("nonascii"),
 	}
+	if tp.Chance(40, "callsandcommands") {
+		// host functions that write variables in the middle of a run of statements, and commands that stay
+		// pending while the host writes: the value in the storer is the value the next assignment starts from
+		cfg.WCall, cfg.HostFnWrites = 3, true
+		if cfg.Handlers = drawHandlers(tp, 1); len(cfg.Handlers) > 0 {
+			cfg.WCommand = 3
+		}
+	}
 	g := &gen{tp: tp, cfg: cfg}
 	var prog *Program
 	if tp.Chance(20, "hubworld") {
@@ -34,15 +42,18 @@ func c03World(tp *Tape, env *Env) (*Plan, *Violation) {
 	}
 	layout := genLayout(tp)
 	w := World{Readers: distribute(tp, prog, layout, 2)}
-	w.Host = HostSpec{Storer: []string{"rec", "mem"}[tp.Int(0, 1, "storer")], Probes: true, Seed: "s1"}
+	w.Host = HostSpec{Storer: []string{"rec", "mem"}[tp.Int(0, 1, "storer")], Probes: true, Seed: "s1", Handlers: cfg.Handlers}
+	if len(cfg.Handlers) > 0 {
+		w.Host.Scheds = drawScheds(tp, true)
+	}
 	if tp.Chance(30, "prefill") {
 		w.Host.Prefill = map[string]Val{"pre": numV(3)}
 	}
-	m := newModel(prog, nil, nil)
+	m := newModel(prog, cfg.Handlers, w.Host.Scheds)
 	for k, v := range w.Host.Prefill {
 		m.store[k] = v
 	}
-	dc := &DriveCfg{MaxOps: 30, WritePct: tp.Int(0, 35, "writepct"), OtherPct: 15, ClearPct: 5, Vars: g.vars}
+	dc := &DriveCfg{MaxOps: 30, WritePct: tp.Int(0, 35, "writepct"), OtherPct: 15, ClearPct: 5, Vars: g.vars, ContinueAfterFault: true}
 	ops, choices := driveTape(tp, m, dc, env.St)
 	if m.discard != "" {
 		env.St.inc("discarded", 1)
@@ -54,6 +65,9 @@ func c03World(tp *Tape, env *Env) (*Plan, *Violation) {
 	for _, o := range ops {
 		if o.K == "write" || o.K == "clear" {
 			nWrites++
+		}
+		if o.Exp != nil && o.Exp.Kind == rError {
+			failing = true
 		}
 	}
 	env.St.inc("cases", 1)
